@@ -239,14 +239,44 @@ fn cfg_g() {
     outcome(format!("{p:?}"));
 }
 
+/// H: both channels non-empty (gate closed), sender 0 parked on its second send;
+/// receiver 0 is dropped *without* receiving: the parked sender of the closed
+/// channel must be woken (and fail) even though the gate stays closed — main
+/// joins it before draining channel 1.
+fn cfg_h() {
+    let (txs, rxs) = channels::<u32>(2);
+    let mut txs = txs.into_iter();
+    let (tx0, tx1) = (txs.next().unwrap(), txs.next().unwrap());
+    let mut rxs = rxs.into_iter();
+    let (rx0, rx1) = (rxs.next().unwrap(), rxs.next().unwrap());
+    let h0 = thread::spawn(move || {
+        let r = block_on(send_all(&tx0, &[1, 2]));
+        drop(tx0);
+        r
+    });
+    let h1 = thread::spawn(move || {
+        let r = block_on(send_all(&tx1, &[11]));
+        drop(tx1);
+        r
+    });
+    let r1 = h1.join().unwrap();
+    drop(rx0);
+    let r0 = h0.join().unwrap(); // must not hang
+    let g1 = block_on(drain(rx1));
+    assert_eq!(g1, vec![11]);
+    assert!(r1.0[0]);
+    outcome(format!("{:?} {:?}", r0, r1.1));
+}
+
 static CONFIGS: &[Config] = &[
     Config { name: "A", desc: "channels(2): 2 sender threads x 2 sends, main drains both receivers concurrently", bound: (Some(2), Some(3)), body: cfg_a },
-    Config { name: "B", desc: "channels(1): sender + clone in 2 threads x 2 sends, main drains (per-sender FIFO, exactly once)", bound: (Some(2), Some(3)), body: cfg_b },
-    Config { name: "C", desc: "channels(2): receiver 0 dropped after one value while sender 0 keeps sending; sender 1 behind the gate must finish", bound: (Some(2), Some(3)), body: cfg_c },
-    Config { name: "D", desc: "channels(2): both ends of empty channel 0 dropped concurrently; channel 1 keeps working (counter drop-order rule)", bound: (Some(3), None), body: cfg_d },
-    Config { name: "E", desc: "channels(1): clone dropped without sending while original sends; None only after all senders gone", bound: (Some(3), None), body: cfg_e },
+    Config { name: "B", desc: "channels(1): sender + clone in 2 threads x 2 sends, main drains (per-sender FIFO, exactly once)", bound: (Some(1), Some(2)), body: cfg_b },
+    Config { name: "C", desc: "channels(2): receiver 0 dropped after one value while sender 0 keeps sending; sender 1 behind the gate must finish", bound: (Some(3), Some(4)), body: cfg_c },
+    Config { name: "D", desc: "channels(2): both ends of empty channel 0 dropped concurrently; channel 1 keeps working (counter drop-order rule)", bound: (Some(3), Some(4)), body: cfg_d },
+    Config { name: "E", desc: "channels(1): clone dropped without sending while original sends; None only after all senders gone", bound: (Some(4), Some(5)), body: cfg_e },
     Config { name: "F", desc: "partition_aware_channels(2,2): 2 input threads, main drains 4 receivers", bound: (Some(2), Some(3)), body: cfg_f },
     Config { name: "G", desc: "channels(2): one sender fills both channels and parks on the gate; two receiver threads; whoever empties first must wake it", bound: (Some(2), Some(3)), body: cfg_g },
+    Config { name: "H", desc: "channels(2): gate closed, sender 0 parked; receiver 0 dropped without receiving must wake it (SendError) although the gate stays closed", bound: (Some(3), Some(5)), body: cfg_h },
 ];
 
 fn main() {
